@@ -1,7 +1,10 @@
 #!/bin/sh
-# Offline setup: regenerate tables from /repo and build the Lean model, proofs and driver.
+# Offline setup: regenerate tables from /repo and build the Lean model, every property file, the table agreements and
+# the driver (each check rebuilds only what changed).
 cd "$(dirname "$0")" || exit 1
 export PYTHONDONTWRITEBYTECODE=1
 /venv/bin/python -m harness.extract || exit 1
-cd lean && lake build Pypika driver 2>&1 | tail -5
+cd lean || exit 1
+mods=$(ls Pypika/Props/*.lean | sed 's/\.lean$//; s#/#.#g' | tr '\n' ' ')
+lake build Pypika driver $mods 2>&1 | tail -5
 test -x .lake/build/bin/driver
